@@ -663,6 +663,9 @@ func (e *Engine) doReturn(st *State, in *ssa.Return) {
 		st.done = true
 		st.retVal = res
 		e.Stats.Paths++
+		if e.RecordEvents {
+			e.Traces = append(e.Traces, append([]SyncEvent(nil), st.events...))
+		}
 		return
 	}
 	if f.discard {
@@ -1236,6 +1239,7 @@ func (e *Engine) lookup(st *State, in *ssa.Lookup) ([]*State, bool) {
 		finish(st, zero, tt.False)
 		return nil, false
 	}
+	e.recordAccess(st, "read", m.Obj, nil)
 	o := e.obj(st, m.Obj)
 	eqs := e.mapEq(o, k)
 	// newest entry wins: scan from the end
@@ -1310,6 +1314,7 @@ func (e *Engine) mapUpdate(st *State, in *ssa.MapUpdate) {
 }
 
 func (e *Engine) mapStore(st *State, m MapV, k, v Value) {
+	e.recordAccess(st, "write", m.Obj, nil)
 	o := e.wobj(st, m.Obj)
 	eqs := e.mapEq(o, k)
 	for i := len(eqs) - 1; i >= 0; i-- {
